@@ -10,6 +10,8 @@ structure XState where
   x : SysX
   note : List String      -- replay problems (oracle events that do not fit the model's control flow)
   hidden : Hidden := fun _ => false   -- non-atomic layer (Model/CtrlN.lean)
+  mid : List (Nat × Json) := []       -- executor steps of the current round still to be replayed (position, op)
+  before : Nat := 0                   -- length of the command log when the current round began
 
 def digestSch (_job : Job) (cl : Cluster) (cm : Comps) (sc : Sch) : Json :=
   let comps := List.range cm.n
@@ -21,9 +23,9 @@ def digestSch (_job : Job) (cl : Cluster) (cm : Comps) (sc : Sch) : Json :=
     ("ovDom", Json.arr ((cl.ids.map (fun w => Json.arr #[jw w, nats (sc.ovDom w)])).toArray)),
     ("schErr", optStr sc.schErr)]
 
-def fullX (d : XState) (extra : List (String × Json)) : Json :=
+def fullX (d : XState) (extra : List (String × Json)) (wide : Bool := false) : Json :=
   let s := d.x.sys
-  Json.mkObj (extra ++ [("ctl", digestCtl d.job d.cl s.ctl), ("env", digestEnv d.job d.cl s.env),
+  Json.mkObj (extra ++ [("ctl", digestCtl d.job d.cl s.ctl), ("env", digestEnv d.job d.cl s.env wide),
     ("sch", digestSch d.job d.cl d.cm d.x.sch),
     ("phase", Json.str (jPhase s.phase)), ("err", optStr s.err), ("shutdowns", n s.shutdowns),
     ("notes", strs d.note)])
@@ -55,6 +57,59 @@ def closeHeur (d : XState) : XState :=
   | .inH _ _ _ _ .p2 _ _ _ => tryStep d .hEnd
   | _ => d
 
+/-- one environment op of the trace on the extended system, with the guards of the non-atomic layer (`stepN`) -/
+def envOpX (d : XState) (j : Json) : Option XState :=
+  let xN : SysN := { sys := d.x.sys, hidden := d.hidden }
+  match j.getObjVal? "yield" with
+  | .ok r =>
+    (match asArr r with
+     | [t, k] =>
+       if nextHidden d.job d.hidden (asNat t) != some (asNat k) then none
+       else some { d with hidden := upd d.hidden ⟨asNat t, asNat k⟩ false }
+     | _ => none)
+  | .error _ =>
+    let es : Option (EnvStep × Bool × Hidden) :=
+      match j.getObjVal? "run" with
+      | .ok r => (match asArr r with
+          | [h, i, t] => some (.run ⟨asNat h, asNat i⟩ (asNat t), !(d.job.inputs (asNat t)).any d.hidden, hideOutputs d.job d.hidden (asNat t))
+          | _ => none)
+      | .error _ =>
+        let want : Option IO := match getArr j "io" with
+          | [Json.str "transmit", t, k, s, g] => some (.transmit ⟨asNat t, asNat k⟩ (asNat s) (asNat g))
+          | [Json.str "fetch", t, k, s] => some (.fetch ⟨asNat t, asNat k⟩ (asNat s))
+          | _ => none
+        want.map (fun o => let i := d.x.sys.env.outstanding.findIdx (· == o); (.io i, baseAllowed xN (.env (.io i)), d.hidden))
+    match es with
+    | none => none
+    | some (es, allowed, hid') =>
+      if !allowed then none else
+      (stepX semStr d.job d.cl d.cm d.x (.base (.env es))).map (fun x' => { d with x := x', hidden := hid' })
+
+/-- replay the mid-round executor steps whose position has been reached (all of them if `all`) -/
+def applyMidX (d : XState) (all : Bool := false) : XState := Id.run do
+  let mut d := d
+  let mut go := true
+  while go do
+    match d.mid with
+    | (k, op) :: rest =>
+      if all || k ≤ d.x.sys.env.log.length - d.before then
+        match envOpX d op with
+        | some d' => d := { d' with mid := rest }
+        | none => d := { d with mid := rest, note := d.note ++ [s!"mid-round executor step not enabled in the model: {op.compress}"] }
+      else go := false
+    | [] => go := false
+  return d
+
+/-- like `drainX`, with the mid-round executor steps replayed before every step -/
+def drainMidX (d : XState) (st : StepX) (fuel : Nat) : XState := Id.run do
+  let mut d := d
+  for _ in [0:fuel] do
+    d := applyMidX d
+    match stepX semStr d.job d.cl d.cm d.x st with
+    | some x' => d := { d with x := x' }
+    | none => break
+  return d
+
 /-- replay one event of the assign phase recorded from the real run -/
 def assignEvent (d : XState) (ev : Json) : XState :=
   match getStr ev "k" with
@@ -76,7 +131,10 @@ def assignEvent (d : XState) (ev : Json) : XState :=
       | _ => { d with note := d.note ++ ["cpu heuristic outside awc"] }
     else d
   | "heur2" => tryStep d .hPhase2      -- the strongest placement of the phase-2 domain check: before the call's assignments
-  | "asg" => stepOr d (.base (.assign (pAsg ev))) "assign not enabled"
+  | "asg" =>
+    let d := applyMidX d
+    let d := { d with note := d.note ++ scanMismatches d.x.sys.ctl (pAsg ev) (pOrders ev) }
+    stepOr d (.base (.assign (pAsg ev))) "assign not enabled"
   | "awcend" => closeHeur d
   | "migrate" =>
     let h := getNat ev "h"
@@ -99,55 +157,35 @@ def xStep (d : XState) (j : Json) : XState × Json :=
     let d' : XState := { job := job, cl := cl, cm := cm, x := SysX.init job cl cm, note := [], hidden := fun _ => false }
     (d', fullX d' [])
   | "round" =>
-    let d := { d with note := [] }
+    let d := { d with note := [], mid := pMid j, before := d.x.sys.env.log.length }
     let before := d.x.sys.env.log.length
     match stepX semStr d.job d.cl d.cm d.x (.base .enter) with
     | none => (d, Json.mkObj [("enabled", toJson false)])
     | some x1 =>
       let d := { d with x := x1 }
-      if x1.sys.phase == .finished then (d, fullX d [("enabled", toJson true), ("cmds", Json.arr #[])]) else
+      if x1.sys.phase == .finished then (d, fullX d [("enabled", toJson true), ("cmds", Json.arr #[])] true) else
       let d := if x1.sys.mayAssign then (getArr j "events").foldl assignEvent d else d
       -- leave assign(): step II may still have to be entered (and found empty)
       let d := match d.x.sch.stage with
         | .stepI [] => tryStep d .beginStepII
         | _ => d
       let d := stepOr d (.base .endAssign) "endAssign not enabled"
+      let ctlA := if getBool j "wantMid" then [("ctlA", digestCtl d.job d.cl d.x.sys.ctl)] else []
       let d := drainX d (.base .plan1) (d.x.sys.todo.length + 1)
       let d := stepOr d (.base .endPlan) "endPlan not enabled"
-      let d := drainX d (.base .flushF1) (d.x.sys.ctl.fetchQ.length + 1)
+      let ctlP := if getBool j "wantMid" then [("ctlP", digestCtl d.job d.cl d.x.sys.ctl)] else []
+      let d := drainMidX d (.base .flushF1) (d.x.sys.ctl.fetchQ.length + 1)
       let d := stepOr d (.base .endFlushF) "endFlushF not enabled"
-      let d := drainX d (.base .flushP1) (d.x.sys.ctl.purgeQ.length + 1)
+      let d := drainMidX d (.base .flushP1) (d.x.sys.ctl.purgeQ.length + 1)
+      let d := applyMidX d true
       let d := stepOr d (.base .endFlush) "endFlush not enabled"
-      (d, fullX d [("enabled", toJson true), ("cmds", Json.arr ((d.x.sys.env.log.drop before).map jCmd).toArray)])
+      let d := { d with x := { d.x with sys := compactSys d.job d.cl d.x.sys } }
+      (d, fullX d ([("enabled", toJson true), ("cmds", Json.arr ((d.x.sys.env.log.drop before).map jCmd).toArray)]
+        ++ ctlA ++ ctlP))
   | "env" =>
-    let xN : SysN := { sys := d.x.sys, hidden := d.hidden }
-    match j.getObjVal? "yield" with
-    | .ok r =>
-      (match asArr r with
-       | [t, k] =>
-         if nextHidden d.job d.hidden (asNat t) != some (asNat k) then (d, Json.mkObj [("enabled", toJson false)]) else
-         ({ d with hidden := upd d.hidden ⟨asNat t, asNat k⟩ false }, Json.mkObj [("enabled", toJson true)])
-       | _ => (d, Json.str "bad-op"))
-    | .error _ =>
-    -- the guards of the non-atomic layer (`stepN`) around the extended system's base step
-    let es : Option (EnvStep × Bool × Hidden) :=
-      match j.getObjVal? "run" with
-      | .ok r => (match asArr r with
-          | [h, i, t] => some (.run ⟨asNat h, asNat i⟩ (asNat t), !(d.job.inputs (asNat t)).any d.hidden, hideOutputs d.job d.hidden (asNat t))
-          | _ => none)
-      | .error _ =>
-        let want : Option IO := match getArr j "io" with
-          | [Json.str "transmit", t, k, s, g] => some (.transmit ⟨asNat t, asNat k⟩ (asNat s) (asNat g))
-          | [Json.str "fetch", t, k, s] => some (.fetch ⟨asNat t, asNat k⟩ (asNat s))
-          | _ => none
-        want.map (fun o => let i := d.x.sys.env.outstanding.findIdx (· == o); (.io i, baseAllowed xN (.env (.io i)), d.hidden))
-    match es with
-    | none => (d, Json.str "bad-op")
-    | some (es, allowed, hid') =>
-      if !allowed then (d, Json.mkObj [("enabled", toJson false)]) else
-      match stepX semStr d.job d.cl d.cm d.x (.base (.env es)) with
-      | none => (d, Json.mkObj [("enabled", toJson false)])
-      | some x' => let d' := { d with x := x', hidden := hid' }; (d', Json.mkObj [("enabled", toJson true), ("env", digestEnv d.job d.cl x'.sys.env)])
+    match envOpX d j with
+    | none => (d, Json.mkObj [("enabled", toJson false)])
+    | some d' => (d', Json.mkObj [("enabled", toJson true), ("env", digestEnv d.job d.cl d'.x.sys.env)])
   | "deliver" =>
     let d := { d with note := [] }
     let evs := (getArr j "events").filterMap pEvent
@@ -158,6 +196,7 @@ def xStep (d : XState) (j : Json) : XState × Json :=
     | some x1 =>
       let d := drainX { d with x := x1 } (.base .notify1) (evs.length + 1)
       let d := tryStep d (.base .endNotify)
+      let d := { d with x := { d.x with sys := compactSys d.job d.cl d.x.sys } }
       (d, fullX d [("enabled", toJson true)])
   | _ => (d, Json.str "bad-op")
 
